@@ -60,7 +60,12 @@ func (l *InterceptingListener) getTlsConfigForClient(clientInfo *ClientInfo) fun
 
 		serverCertsReq := new(types.GenerateServerCertificatesRequest)
 		var protoToReturn string
-		opt := l.options
+		// Options are appended to below and by the functions they are passed
+		// to, so work on a per-connection copy; appending to the listener's
+		// slice would write into its shared backing array whenever it has
+		// spare capacity, mixing up the options of concurrent handshakes
+		opt := make([]nodeenrollment.Option, len(l.options))
+		copy(opt, l.options)
 
 		for _, p := range trimmedProtos {
 			switch {
@@ -85,7 +90,7 @@ func (l *InterceptingListener) getTlsConfigForClient(clientInfo *ClientInfo) fun
 				}
 				// This will return a response either with Authorized false and no
 				// other data or Authorized true and encrypted values
-				fetchResp, err := l.fetchCredsFn(l.ctx, l.storage, req, l.options...)
+				fetchResp, err := l.fetchCredsFn(l.ctx, l.storage, req, opt...)
 				if err != nil {
 					return nil, fmt.Errorf("(%s) error handling fetch creds: %w", op, err)
 				}
